@@ -20,7 +20,7 @@ class Prop(BaseProp):
             "multivariate values, directionality, matrix (antisymmetry, zero diagonal, entries), synfire indicator "
             "and every indices selection are checked as identities between real executions. distinct = interleaving "
             "words of the list incl. keyword regime and index selection")
-    budget = {"quick": 700, "thorough": 14000}
+    budget = {"quick": 700, "thorough": 84000}
     must_see = ["N>=4", "indices_non_prefix", "indices_reversed", "indices_not_sorted", "indices_skip_0",
                 "empty_train_in_list", "simultaneous_spikes", "max_tau_positive", "mrts_positive",
                 "leader_follower_pair_seen", "swap_checked", "matrix_checked", "synfire_checked"]
